@@ -324,6 +324,10 @@ impl C11 {
     /// negated class must not, and without the flag the literal must not.
     fn related_block(&self, out: &mut ChunkOut, scope: &str, lo: u32, hi: u32) {
         let cm = icu_casemap::CaseMapper::new();
+        // a range of 0x2f00 code points (case closure of a large range)
+        const BIG: (u32, u32) = (0x100, 0x3000);
+        let big_pat = "^[\u{100}-\u{3000}]$";
+        let big = common::compile(big_pat, "i", false);
         for cp in lo..hi {
             let c = match char::from_u32(cp) {
                 Some(c) => c,
@@ -339,6 +343,18 @@ impl C11 {
                 continue;
             }
             out.inc("related_characters");
+            for x in partners.iter().copied() {
+                // c inside the large range, its counterpart outside: the counterpart matches under i
+                if (BIG.0..=BIG.1).contains(&cp) && !(BIG.0..=BIG.1).contains(&(x as u32)) {
+                    if let Compiled::Ok(re) = &big {
+                        out.inc("states");
+                        out.inc("validated");
+                        if let Out::Ok(false) = imp::is_match(re, &x.to_string()) {
+                            out.fail("C11", &Case::new(scope, big_pat, "i").input(&x.to_string()).api("is_match"), "SimpleCounterpart", "true", "false", &format!("U+{:04X} is inside the range and is a simple case counterpart of the input", cp));
+                        }
+                    }
+                }
+            }
             for x in partners {
                 for (p, i) in [(c, x), (x, c)] {
                     // (pattern, flags, input, expected)
